@@ -211,7 +211,7 @@ class ImportActions(object):
       old_cols = [c for c in src_table_rec.columns
                   if c.colId.startswith(_import_transform_col_prefix)]
       old_sections = {field.parentId for c in old_cols for field in c.viewFields}
-      self._docmodel.remove(old_sections)
+      self._docmodel.remove(sorted(old_sections))
       self._docmodel.remove(old_cols)
 
     #======== Prepare/normalize transform_rule, Create new formula columns
